@@ -75,7 +75,7 @@ def g1_apportionment(ctx):
             ctx.check(okm and okt and okz and oka, f, c, f"{f.short}: counts = Huntington-Hill of number_of_ballots by the proportions, keyed in the proportions' order",
                       why[:160], f"`{astx.u(c)}`: method ok={okm}, total is the number_of_ballots parameter={okt}, dict(zip(keys, counts))={okz}, keys/proportions aligned={oka} ({why[:120]})")
     if n < 7:
-        ctx.violated(None, None, "apportionment call sites", f"only {n} apportionment calls in generate_profile* (floor 7)")
+        ctx.vanished("apportionment call sites" + ": " + f"only {n} apportionment calls in generate_profile* (floor 7)")
     # crossover proportions
     for qn in ("AlternatingCrossover.generate_profile", "CambridgeSampler.generate_profile"):
         f = prog.find_func(qn)
@@ -210,7 +210,7 @@ def g3_shape(ctx):
                         ctx.check(okz, f, a, f"{f.short}: zero-support candidates appended as one final tied group, only when present", f"{arg} under {sorted(lits)}",
                                   f"zero-support tail is `{arg}` under {sorted(lits)}")
     if n < 9:
-        ctx.violated(None, None, "generated ballot constructions", f"only {n} found")
+        ctx.vanished("generated ballot constructions" + ": " + f"only {n} found")
     # ballot_pool_to_profile counts occurrences
     f = prog.find_func("BallotGenerator.ballot_pool_to_profile")
     cnt = [x for x in astx.walk_own(f.node) if isinstance(x, ast.Assign) and isinstance(x.targets[0], ast.Subscript) and astx.u(x.targets[0].value) == "ranking_counts"]
@@ -278,7 +278,7 @@ def g4_aggregation(ctx):
         ctx.check(good, f, fo, f"{f.short}: aggregate = fold of + over the per-bloc profiles; by_bloc returns (dict, aggregate)", str({k: sorted(v) for k, v in shapes.items()}),
                   f"aggregation / return shapes are {shapes}")
     if n < 7:
-        ctx.violated(None, None, "bloc-aggregating generators", f"only {n} found")
+        ctx.vanished("bloc-aggregating generators" + ": " + f"only {n} found")
     add = prog.find_func("PreferenceProfile.__add__")
     ctx.consult(add)
 
